@@ -53,6 +53,35 @@ USER_FUNCS = {
 }
 
 
+# an opaque user function that reads the current event on its own (the property covers "values that come from opaque user
+# C++"): called with literal arguments only, its value still differs from event to event
+USER_FUNCS["evt_weight"] = {"metadata_type": "add_cpp_function", "name": "evt_weight", "include_files": [], "arguments": ["k"],
+                            "code": ["double result = simfw::event_value() * k;"], "return_type": "double"}
+
+MD_TYPE = {"atlas": "add_atlas_event_collection_info", "cms_aod": "add_cms_aod_event_collection_info",
+           "cms_miniaod": "add_cms_miniaod_event_collection_info"}
+P_DECL = 0.10  # a collection is asked for through a metadata declaration (Fork<Name>) instead of the built-in
+
+
+def declare_collection(md, r, backend, name):
+    """Declare Fork<name> through metadata with the container / element type of the built-in <name>; with some
+    probability declare a second collection of ANOTHER type next to it (used or not): each call must reach its own
+    declaration. Returns the name to call."""
+    def decl(n):
+        c = COLLECTIONS[backend][n]
+        d = {"metadata_type": MD_TYPE[backend], "name": "Fork" + n, "include_files": ["declared/" + n + ".h"],
+             "container_type": c["ctype"], "element_type": c["etype"], "contains_collection": True}
+        if backend != "atlas":
+            d["element_pointer"] = False
+        md[("coll", "Fork" + n)] = d
+    decl(name)
+    if r.random() < 0.6:
+        others = sorted(n for n in COLLECTIONS[backend] if COLLECTIONS[backend][n]["ctype"] != COLLECTIONS[backend][name]["ctype"])
+        if others:
+            decl(r.choice(others))
+    return "Fork" + name
+
+
 import os as _os
 
 from ..core.util import weighted as weighted_choice  # noqa (used by qgen2)
@@ -148,9 +177,13 @@ class QGen:
         if self.r.random() < P_ODD_BANK or (any(":" in o["bank"] for o in self.occ) and self.r.random() < 0.8):
             bank = odd_bank(self.r, name, bank, self.occ)
             self.shape.append("odd_bank")
-        self.occ.append({"coll": name, "bank": bank, "type": c["ctype"], "uncond": self.uncond})
+        call = name
+        if self.r.random() < P_DECL:
+            call = declare_collection(self.md, self.r, self.b, name)
+            self.shape.append("declared_coll")
+        self.occ.append({"coll": call, "bank": bank, "type": c["ctype"], "uncond": self.uncond})
         self.last = (name, bank)
-        return f'{evar}.{name}("{bank}")', c["etype"]
+        return f'{evar}.{call}("{bank}")', c["etype"]
 
     def maybe_self_join(self, p=0.4):
         "the next collection asked for is, with probability p, the one asked for last (same bank)"
@@ -388,6 +421,11 @@ class QGen:
             self.occ.append({"coll": "EventInfo", "bank": "EventInfo", "type": "xAOD::EventInfo", "uncond": self.uncond})
             self.shape.append("singleton")
             return f'{evar}.EventInfo("EventInfo").{r.choice(["runNumber", "eventNumber"])}()', "double"
+        if r.random() < 0.05:
+            # opaque user C++ that looks at the event itself, called with literal arguments only
+            self.use_func("evt_weight")
+            self.shape.append("evt_userfn_literal")
+            return f"evt_weight({r.choice(FLOATS)})", "double"
         if depth > 0 and r.random() < 0.10:
             # arithmetic between two aggregates, the second one behind its own loop / filter
             s1, et1 = self.seq_of_obj(evar, 0, allow_where=r.random() < 0.5)
